@@ -129,7 +129,22 @@ def main():
             except Exception as e:  # noqa
                 res = 'err:' + type(e).__name__
             rec['trace'].append(dict(res=res, consults=watch.log, obs=observe(tab)))
-    json.dump(dict(cases=out), sys.stdout)
+    # two behaviours the model is parametrised by (read from the code, never assumed)
+    flags = {}
+    try:
+        t = Tableau('CPL')
+        t.build()
+        try:
+            t.argument = Argument('a:a')
+            flags['fin_lock'] = False
+        except Exception as e:  # noqa
+            flags['fin_lock'] = type(e).__name__ == 'IllegalStateError'
+        t = Tableau(None, Argument('b:a'))
+        t.build()
+        flags['trunk_verdict'] = t.valid is None and t.invalid is None
+    except Exception as e:  # noqa
+        flags['error'] = f'{type(e).__name__}: {e}'[:200]
+    json.dump(dict(cases=out, flags=flags), sys.stdout)
 
 
 if __name__ == '__main__':
